@@ -1,3 +1,38 @@
-From Flodym Require Import Base.ND.
-Theorem placeholder : True. Proof. exact I. Qed.
-Print Assumptions placeholder.
+(* C06 — indexing by item labels reads and writes exactly the addressed entries.  Statements only.
+   PARTIAL: proved are the pointwise characterisation of the numpy index model that the handler
+   feeds (every entry of the result is the source entry the rule assigns), the refusals, and (C05)
+   the frame of writes.  The label-level statement "lden (a[k]) l' = lden a (extend k l')" for every
+   combination of selector kinds in every position is decided per configuration by the exhaustive
+   correspondence (all selector-kind assignments up to rank 3 / 4) together with the oracle; the
+   behaviour before the repair is refuted in Refuted/C06.v. *)
+From Coq Require Import List Arith.
+Import ListNotations.
+From Flodym Require Import Base.ND Base.Env Np.Einsum Np.Index Model.Dims Model.Array Model.SubArray Proofs.IndexProofs.
+
+Theorem C06_read_entries_are_the_addressed_source_entries :
+  forall (R : Type) (rO : R) (a : nd R) sels p idx,
+  mk_plan_of sels (shp a) = Some p -> Forall2 lt idx (p_osh p) ->
+  exists r, index R rO a sels = Ok r /\ shp r = p_osh p
+            /\ get rO (shp r) (dat r) idx = get rO (shp a) (dat a) (src_of sels p idx).
+Proof. exact index_get. Qed.
+Print Assumptions C06_read_entries_are_the_addressed_source_entries.
+
+Theorem C06_numpy_slice_refused : forall ds, mk_handler_of ds KSlice = Err.
+Proof. exact slice_key_refused. Qed.
+Print Assumptions C06_numpy_slice_refused.
+
+Theorem C06_unknown_item_refused :
+  forall ds it, (forall d, In d ds -> ~ In it (ditems d)) -> mk_handler_of ds (KBare it) = Err.
+Proof. exact unknown_item_refused. Qed.
+Print Assumptions C06_unknown_item_refused.
+
+Theorem C06_item_in_several_dimensions_refused :
+  forall ds d1 d2 it rest, filter (fun d => memb it (ditems d)) ds = d1 :: d2 :: rest -> mk_handler_of ds (KBare it) = Err.
+Proof. exact ambiguous_item_refused. Qed.
+Print Assumptions C06_item_in_several_dimensions_refused.
+
+Theorem C06_list_selectors_are_for_writes_only :
+  forall (R : Type) (rO : R) (a : farr R) k h,
+  mk_handler_of (adims a) k = Ok h -> h_invalid h = true -> getitem R rO a k = Err.
+Proof. exact list_selector_refused_in_reads. Qed.
+Print Assumptions C06_list_selectors_are_for_writes_only.
